@@ -4,7 +4,7 @@ from __future__ import annotations
 
 import ast
 import copy
-from typing import List, Optional, Tuple
+from typing import Dict, List, Optional, Tuple
 
 from . import astutil as A
 from .model import ConstEval, Unknown, dotted, src
@@ -180,3 +180,124 @@ def combine(strengths: List[str]) -> str:
     if high:
         return "upper-only"
     return "none"
+
+
+# ---------------------------------------------------------------------------------------------------------------
+# evaluation of a side-effect-free predicate under an environment (checker-side semantics, nothing of the repo is run)
+
+class Sym:
+    """an opaque value of a named class (e.g. a Register operand, a command object)"""
+
+    def __init__(self, typename, supertypes=()):
+        self.typename = typename
+        self.types = {typename, *supertypes, "object"}
+
+    def __repr__(self):
+        return f"<{self.typename}>"
+
+
+_PY_TYPES = {"int": int, "bool": bool, "str": str, "float": float, "list": list, "tuple": tuple, "dict": dict, "set": set}
+
+
+def peval(expr, env: Dict[str, object]):
+    """value of `expr`; env maps normalised source text of sub-expressions (names, attributes, calls) to values.
+    Raises Unknown outside the fragment: constants, names/sub-expressions bound in env, and/or/not, comparisons,
+    + - * // % **, unary minus, tuples/lists, len(), isinstance(), abs(), min(), max(), conditional expressions."""
+    key = A.norm(expr)
+    if key in env:
+        return env[key]
+    if isinstance(expr, ast.Constant):
+        return expr.value
+    if isinstance(expr, ast.BoolOp):
+        vals = None
+        for v in expr.values:
+            vals = peval(v, env)
+            if isinstance(expr.op, ast.And) and not vals:
+                return vals
+            if isinstance(expr.op, ast.Or) and vals:
+                return vals
+        return vals
+    if isinstance(expr, ast.UnaryOp):
+        v = peval(expr.operand, env)
+        if isinstance(expr.op, ast.Not):
+            return not v
+        if isinstance(v, Sym):
+            raise Unknown("arithmetic on an opaque value")
+        if isinstance(expr.op, ast.USub):
+            return -v
+        if isinstance(expr.op, ast.UAdd):
+            return +v
+        raise Unknown(ast.dump(expr.op))
+    if isinstance(expr, ast.IfExp):
+        return peval(expr.body, env) if peval(expr.test, env) else peval(expr.orelse, env)
+    if isinstance(expr, (ast.Tuple, ast.List)):
+        vs = [peval(e, env) for e in expr.elts]
+        return tuple(vs) if isinstance(expr, ast.Tuple) else vs
+    if isinstance(expr, ast.BinOp):
+        a, b = peval(expr.left, env), peval(expr.right, env)
+        if isinstance(a, Sym) or isinstance(b, Sym) or a is None or b is None:
+            raise Unknown("arithmetic on an opaque value")
+        ops = {ast.Add: lambda: a + b, ast.Sub: lambda: a - b, ast.Mult: lambda: a * b, ast.FloorDiv: lambda: a // b, ast.Mod: lambda: a % b,
+               ast.Pow: lambda: a ** b, ast.LShift: lambda: a << b, ast.RShift: lambda: a >> b, ast.BitAnd: lambda: a & b, ast.BitOr: lambda: a | b}
+        f = ops.get(type(expr.op))
+        if f is None:
+            raise Unknown(ast.dump(expr.op))
+        try:
+            return f()
+        except (ZeroDivisionError, TypeError, ValueError) as e:
+            raise Unknown(str(e))
+    if isinstance(expr, ast.Compare):
+        left = peval(expr.left, env)
+        for op, c in zip(expr.ops, expr.comparators):
+            right = peval(c, env)
+            sym = isinstance(left, Sym) or isinstance(right, Sym)
+            if isinstance(op, ast.Is):
+                r = left is right
+            elif isinstance(op, ast.IsNot):
+                r = left is not right
+            elif isinstance(op, ast.Eq):
+                r = (left is right) if sym else left == right
+            elif isinstance(op, ast.NotEq):
+                r = (left is not right) if sym else left != right
+            elif isinstance(op, (ast.In, ast.NotIn)):
+                if isinstance(right, Sym):
+                    raise Unknown("membership in an opaque value")
+                r = any((x is left) if isinstance(left, Sym) or isinstance(x, Sym) else x == left for x in right)
+                r = r if isinstance(op, ast.In) else not r
+            else:
+                if sym or left is None or right is None:
+                    raise Unknown("ordering of an opaque value")
+                r = {ast.Lt: left < right, ast.LtE: left <= right, ast.Gt: left > right, ast.GtE: left >= right}[type(op)]
+            if not r:
+                return False
+            left = right
+        return True
+    if isinstance(expr, ast.Call):
+        fn = A.norm(expr.func)
+        if fn == "isinstance" and len(expr.args) == 2:
+            v = peval(expr.args[0], env)
+            tys = expr.args[1].elts if isinstance(expr.args[1], ast.Tuple) else [expr.args[1]]
+            for t in tys:
+                tn = A.norm(t).split(".")[-1]
+                if isinstance(v, Sym):
+                    if tn in v.types:
+                        return True
+                elif tn in _PY_TYPES:
+                    if isinstance(v, _PY_TYPES[tn]):
+                        return True
+                elif v is None or isinstance(v, (int, str, float, list, tuple, dict, set)):
+                    continue  # a repo class: builtin values are not instances of it
+                else:
+                    raise Unknown(f"isinstance against {tn}")
+            return False
+        if fn in ("len", "abs", "min", "max", "bool", "int") and not expr.keywords:
+            args = [peval(a, env) for a in expr.args]
+            if any(isinstance(a, Sym) for a in args):
+                if fn == "bool":
+                    return True
+                raise Unknown(f"{fn} of an opaque value")
+            try:
+                return {"len": len, "abs": abs, "min": min, "max": max, "bool": bool, "int": int}[fn](*args)
+            except (TypeError, ValueError) as e:
+                raise Unknown(str(e))
+    raise Unknown(f"`{key}` is outside the evaluable fragment")
